@@ -596,10 +596,9 @@ def front_end(ctx: Ctx, R: dict, declare: bool = True):
     decl(R["b"], "tree folding: expression/term fold left-to-right with the accumulator as first operand; factor applies the sign to its operand; power is base ** exponent", floor=4)
     from sa import av as _avb
 
-    e2 = sm.func("expressions.py", "build_expression.expr2symbols")
-    cur_v = util.value_of(ctx, e2)
-    ref_v = util.reference_value(ctx, "expressions.py", "build_expression.expr2symbols", REF_EXPR2SYMBOLS)
-    kt = ("sym", f"{e2.params[0]}.data")
+    from . import common as _cm
+
+    e2, cur_v, ref_v, kt = _cm.builder_values(ctx, REF_EXPR2SYMBOLS)
     cur_cases, ref_cases = util.dispatch_cases(cur_v, kt), util.dispatch_cases(ref_v, kt)
 
     def case_rule(rule_, kind, key_, ok_msg, fail_msg):
